@@ -165,12 +165,14 @@ func (s *AbsfsNFS) LookupWithContext(ctx context.Context, path string) (*NFSNode
 
 	// Use Lstat to get symlink info without following
 	// The filesystem now implements absfs.SymlinkFileSystem which has Lstat
+	// (what is read is cached only if no invalidation happens meanwhile)
+	cacheGen := s.attrCache.Generation()
 	info, err := s.fs.Lstat(path)
 
 	if err != nil {
 		// Store negative cache entry if enabled and error is "not found"
 		if os.IsNotExist(err) {
-			s.attrCache.PutNegative(path)
+			s.attrCache.PutNegativeIfCurrent(path, cacheGen)
 			s.RecordNegativeCacheMiss()
 		}
 		return nil, fmt.Errorf("lookup: failed to stat %s: %w", path, err)
@@ -201,7 +203,7 @@ func (s *AbsfsNFS) LookupWithContext(ctx context.Context, path string) (*NFSNode
 	}
 
 	// Cache the attributes
-	s.attrCache.Put(path, attrs)
+	s.attrCache.PutIfCurrent(path, attrs, cacheGen)
 	return node, nil
 }
 
@@ -218,6 +220,7 @@ func (s *AbsfsNFS) GetAttr(node *NFSNode) (*NFSAttrs, error) {
 
 	// Get fresh attributes using Lstat (to handle symlinks properly)
 	// The filesystem implements absfs.SymlinkFileSystem which has Lstat
+	cacheGen := s.attrCache.Generation()
 	info, err := s.fs.Lstat(node.path)
 
 	if err != nil {
@@ -248,7 +251,7 @@ func (s *AbsfsNFS) GetAttr(node *NFSNode) (*NFSAttrs, error) {
 	attrs.Refresh() // Initialize cache validity
 
 	// Cache the attributes
-	s.attrCache.Put(node.path, attrs)
+	s.attrCache.PutIfCurrent(node.path, attrs, cacheGen)
 	return attrs, nil
 }
 
@@ -813,6 +816,12 @@ func (s *AbsfsNFS) ReadDirWithContext(ctx context.Context, dir *NFSNode) ([]*NFS
 		}
 	}
 
+	// A listing is cached only if the directory cache is not invalidated while
+	// it is being read (a concurrent CREATE/REMOVE/RENAME in this directory).
+	var dirGen uint64
+	if s.dirCache != nil {
+		dirGen = s.dirCache.Generation()
+	}
 	f, err := s.fs.OpenFile(dir.path, os.O_RDONLY, 0)
 	if err != nil {
 		return nil, fmt.Errorf("readdir: failed to open directory %s: %w", dir.path, err)
@@ -833,7 +842,7 @@ func (s *AbsfsNFS) ReadDirWithContext(ctx context.Context, dir *NFSNode) ([]*NFS
 
 	// Store entries in cache if enabled
 	if s.dirCache != nil {
-		s.dirCache.Put(dir.path, entries)
+		s.dirCache.PutIfCurrent(dir.path, entries, dirGen)
 	}
 
 	var nodes []*NFSNode
@@ -874,6 +883,7 @@ func (s *AbsfsNFS) ReadDirPlus(dir *NFSNode) ([]*NFSNode, error) {
 	for _, node := range nodes {
 		if attrs, found := s.attrCache.Get(node.path, s); !found || attrs == nil || !attrs.IsValid() {
 			// Lstat: an entry that is a symbolic link is reported as a link.
+			cacheGen := s.attrCache.Generation()
 			info, err := s.fs.Lstat(node.path)
 			if err != nil {
 				continue
@@ -896,7 +906,7 @@ func (s *AbsfsNFS) ReadDirPlus(dir *NFSNode) ([]*NFSNode, error) {
 			attrs.SetMtime(modTime)
 			attrs.SetAtime(modTime)
 			attrs.Refresh() // Initialize cache validity
-			s.attrCache.Put(node.path, attrs)
+			s.attrCache.PutIfCurrent(node.path, attrs, cacheGen)
 
 			// Assign attrs with write lock protection
 			node.mu.Lock()
